@@ -145,7 +145,29 @@ func runProperty(eng *Engine, verifDir, prop, tier string, updateLedger, verbose
 		fv.nameObligations()
 		fvs = append(fvs, fv)
 	}
-	sel := func(o *Obligation) bool { return matchAny(sre, o.Name) }
+	// Support closure: an obligation of a function is discharged under that function's loop invariants
+	// and under the postconditions of the calls it makes, which hold only if their preconditions do.
+	// So the invariant and call-precondition obligations of every function that contributes a selected
+	// obligation belong to the property as well (otherwise a change that breaks an invariant's
+	// establishment leaves the selected clause "proved" from an assumption that no longer holds).
+	supportFuncs := map[string]bool{}
+	for _, fv := range fvs {
+		for _, o := range fv.obls {
+			if matchAny(sre, o.Name) {
+				supportFuncs[fv.short] = true
+				break
+			}
+		}
+	}
+	sel := func(o *Obligation) bool {
+		if matchAny(sre, o.Name) {
+			return true
+		}
+		if supportFuncs[o.Func] && (o.Kind == "inv-entry" || o.Kind == "inv-pres" || o.Kind == "pre") {
+			return true
+		}
+		return false
+	}
 	dischargeAll(fvs, sel, timeout, all, runtime.NumCPU())
 
 	for _, fv := range fvs {
